@@ -192,3 +192,16 @@ impl std::fmt::Debug for Lattice {
         writeln!(f, "]}}")
     }
 }
+
+#[cfg(vibrato_verif)]
+impl Lattice {
+    /// Verification hook: the whole `ends` buffer (including any stale tail beyond `len_char`).
+    pub fn verif_ends(&self) -> &[Vec<Node>] {
+        &self.ends
+    }
+
+    /// Verification hook: the EOS node of the last lattice, if any.
+    pub fn verif_eos(&self) -> Option<&Node> {
+        self.eos.as_ref()
+    }
+}
